@@ -330,20 +330,24 @@ def sw_item(A, k):
 
 
 def sw_pre(A):
-    """valid window: it fits into the series (the rejection of one that does not is C20)"""
+    a = A.self.attrs
+    return True if a["window_length"] is None else a["window_length"] >= 1
+
+
+def sw_rejects(A):
+    """a window (one observation if no length is given) plus the horizon that does not fit is rejected"""
     a = A.self.attrs
     n = Z(yidx(A.y).len)
-    if a["window_length"] is None:
-        return fh_last(a["fh"]) < n
-    return And(a["window_length"] >= 1, a["window_length"] + fh_last(a["fh"]) <= n)
+    w = 1 if a["window_length"] is None else a["window_length"]
+    return w + fh_last(a["fh"]) > n
 
 
 SW_CASES = ["wnone", "wint"]
-contract(f"{SP}::SingleWindowSplitter._split", "C01", cases=SW_CASES,
-         inputs=lambda B, case: {"self": sym_single(B, case), "y": sym_y(B)}, pre=sw_pre,
+contract(f"{SP}::SingleWindowSplitter._split", "C01,C20", cases=SW_CASES,
+         inputs=lambda B, case: {"self": sym_single(B, case), "y": sym_y(B)}, pre=sw_pre, raises=[("ValueError", sw_rejects)],
          yields_count=lambda A: 1, yields_item=sw_item, frame=lambda A: [A.self])
-contract(f"{SP}::SingleWindowSplitter.split", "C01", cases=[c + "|" + yk for c in SW_CASES for yk in ("index", "series")],
-         inputs=lambda B, case: {"self": sym_single(B, case), "y": sym_y_any(B, case)}, pre=sw_pre,
+contract(f"{SP}::SingleWindowSplitter.split", "C01,C20", cases=[c + "|" + yk for c in SW_CASES for yk in ("index", "series")],
+         inputs=lambda B, case: {"self": sym_single(B, case), "y": sym_y_any(B, case)}, pre=sw_pre, raises=[("ValueError", sw_rejects)],
          yields_count=lambda A: 1, yields_item=sw_item, invariants={0: lambda S: Eq(S.ycount, S.k)}, frame=lambda A: [A.self])
 contract(f"{SP}::SingleWindowSplitter.get_cutoffs", "C01", cases=[c + "|index" for c in SW_CASES] + ["wint|None"],
          inputs=lambda B, case: {"self": sym_single(B, case), "y": None if case.endswith("None") else sym_y_any(B, case)},
@@ -460,6 +464,7 @@ def _single_lemma(case):
         y = sym_y(B)
         A = NS(self=s, y=y)
         B.assume(sw_pre(A))
+        B.assume(Not(sw_rejects(A)))
         a = s.attrs
         n = Z(y.len)
         fhv = vals(a["fh"])
